@@ -5,7 +5,7 @@ use serde_json::Value;
 
 pub const RULE: &str = "cases: histories (insert incl. filtered / replacement / extra add-path paths, remove, session down with GR-restale or drop per family, reconnect with a fresh source object, \
 restart-timer expiry with LLGR-restale + NO_LLGR purge or stale purge, stale / LLGR-stale purges, next-hop validity flips, families starting in deferral + end of deferral) over 3 peers x 2 families x a few prefixes x path-ids {0,1,2}. \
-Every NlriChange returned by the real Table is fed to two consumers gated exactly like process_nlri_change (best_changed / any_changed); after every step both are compared with the Loc-RIB snapshot, \
+Every NlriChange returned by the real Table is fed to three consumers gated like process_nlri_change: one applying best_changed notifications, one applying any_changed notifications, and an Add-Path neighbour that refreshes a path it already holds (same local path id) only when replaced_path_id names it (compared by attribute value, next hop and source session); after every step all are compared with the Loc-RIB snapshot, \
 the snapshot with a recount of the eligible paths in the RIB, and destination ids are checked for uniqueness, stability and shard tag. \
 non-trivial := a prefix is compared after a notification for it was skipped by one of the consumers, or the history contains a session-down / restart-timer / end-of-deferral / limit rejection; distinct := distinct serialized case";
 
